@@ -224,6 +224,20 @@ impl C11 {
                 return fail(col, "execute-and-stepping-disagree-on-error", format!("execute: {} / stepping: {}", ma, mb));
             }
         }
+        // execute() on a run that is over must behave like a further step: fail and change nothing
+        if snap_a.finished || cfg.limit.map(|n| snap_a.executed >= n).unwrap_or(false) {
+            let r = call(|| block_on(a.execute()));
+            col.eval(1);
+            if r.is_panic() {
+                return fail(col, &format!("execute-panic:{}", r.panic_key()), r.describe());
+            }
+            if r.is_ok() {
+                return fail(col, "execute-after-end-succeeded", format!("execute() on a run that is over returned Ok (finished={}, executed={}, limit={:?}); a further step fails", snap_a.finished, snap_a.executed, cfg.limit));
+            }
+            if let Some(d) = snapshot_diff(&snap_a, &snapshot(&a)) {
+                return fail(col, "execute-after-end-changed-state", d);
+            }
+        }
         // after the end: two further steps fail and change nothing
         if snap_b.finished || cfg.limit.map(|n| snap_b.executed >= n).unwrap_or(false) {
             for i in 0..2 {
